@@ -332,6 +332,123 @@ func Gen(r *h.Rand, tier string, prop string, emit func([]string)) {
 		g.readAll()
 		emit(g.ops)
 	}
+	// time-disjoint files + partial deletes + multi-file compactions (see epochCase)
+	ne := 90
+	if tier == "thorough" {
+		ne = 400
+	}
+	for i := 0; i < ne; i++ {
+		emit(epochCase(r, prop))
+	}
+}
+
+// epochCase: every snapshot ("epoch") holds its own, disjoint time range of the focus keys, so
+// the TSM files do not overlap in time and a range delete inside one epoch tombstones exactly
+// one file, leaving the older ones untouched.  Then several files are compacted together
+// (CompactFast copies blocks without decoding; CompactFull does so for full and trailing blocks)
+// and everything is read back — also after a restart.  The random histories almost never
+// produce this shape (their timestamps come from one small shared set).
+func epochCase(r *h.Rand, prop string) []string {
+	g := newGenState(r, prop)
+	if len(g.keys) > 2 {
+		g.keys = g.keys[:2]
+	}
+	nEpoch := 2 + r.Intn(3)
+	epochTimes := make([][]int64, nEpoch)
+	for e := 0; e < nEpoch; e++ {
+		base := int64(100*e + 10)
+		nb := 1 + r.Intn(2)
+		for b := 0; b < nb; b++ {
+			var es []string
+			n := 2 + r.Intn(5)
+			for i := 0; i < n; i++ {
+				k := h.Pick(r, g.keys)
+				t := base + int64(r.Intn(16))
+				epochTimes[e] = append(epochTimes[e], t)
+				es = append(es, fmt.Sprintf("%d:%d:%d:%d", k.s, k.f, t, g.value(k.f)))
+			}
+			g.emit("w " + strings.Join(es, ","))
+		}
+		if r.Chance(0.15) {
+			g.emit("sb")
+			g.emit("sx")
+		} else {
+			g.emit("snap")
+		}
+	}
+	g.nfiles = nEpoch
+	if prop != "c01" {
+		nd := 1 + r.Intn(2)
+		for d := 0; d < nd; d++ {
+			// mostly an epoch other than the oldest: its file is the one that is NOT first in the merge
+			e := 1 + r.Intn(nEpoch-1)
+			if r.Chance(0.15) {
+				e = 0
+			}
+			ts := epochTimes[e]
+			a, b := h.Pick(r, ts), h.Pick(r, ts)
+			if a > b {
+				a, b = b, a
+			}
+			if r.Chance(0.3) {
+				b = a
+			}
+			g.emit(fmt.Sprintf("d %d %d %d", h.Pick(r, g.keys).s, a, b))
+		}
+		if r.Chance(0.3) {
+			g.readAll()
+		}
+	}
+	// compact several files together
+	i, j := 0, nEpoch-1
+	if nEpoch > 2 && r.Chance(0.4) {
+		i = r.Intn(nEpoch - 1)
+		j = i + 1 + r.Intn(nEpoch-1-i)
+	}
+	g.emit(fmt.Sprintf("c %s %d %d", h.Pick(r, []string{"lf", "lf", "ls", "full", "opt"}), i, j))
+	g.nfiles -= j - i
+	g.readAll()
+	switch prop {
+	case "c03":
+		g.emit(h.Pick(r, []string{"reopen", "crash clean"}))
+		g.readAll()
+	case "c02":
+		g.emit(h.Pick(r, []string{"reopen", "crash clean", "crash clean"}))
+		g.readAll()
+	}
+	if g.nfiles > 1 && r.Chance(0.5) {
+		g.emit(fmt.Sprintf("c %s 0 %d", h.Pick(r, kinds), g.nfiles-1))
+		g.nfiles = 1
+		g.readAll()
+	}
+	for k := 0; k < r.Intn(6); k++ {
+		g.op()
+	}
+	if g.phase != 0 {
+		g.emit("sx")
+	}
+	g.readAll()
+	return g.ops
+}
+
+// bigBlockCase: the older file holds one FULL block (1000 points) of the key, the newer file a
+// few later points with a partial delete; CompactFull passes the full block and then the single
+// trailing block through without decoding.
+func bigBlockCase(kind string, after string) []string {
+	var es []string
+	for t := 0; t < 1000; t++ {
+		es = append(es, fmt.Sprintf("0:0:%d:%d", t, t%90))
+	}
+	var es2 []string
+	for t := 1000; t < 1010; t++ {
+		es2 = append(es2, fmt.Sprintf("0:0:%d:%d", t, t%90))
+	}
+	ops := []string{"w " + strings.Join(es, ","), "snap", "w " + strings.Join(es2, ","), "snap",
+		"d 0 1003 1005", "r 0 0 990 1100 1", "c " + kind + " 0 1", "r 0 0 990 1100 1"}
+	if after != "" {
+		ops = append(ops, after, "r 0 0 990 1100 0")
+	}
+	return ops
 }
 
 // fixedCases are the hand-written histories every run starts with.
@@ -352,6 +469,15 @@ func fixedCases(prop string) [][]string {
 		)
 	}
 	cs = append(cs, []string{"w 0:0:1:1", "snapfail", "r 0 0 0 1000 1", "w 0:0:2:2,0:0:1:5", "snapfail", "r 0 0 0 1000 0", "snap", "files", "r 0 0 0 1000 1"})
+	if prop != "c01" {
+		cs = append(cs,
+			// a partial delete in the newer of two time-disjoint files, then both compacted (fast path copies blocks)
+			[]string{"w 0:0:1:1,0:0:2:2", "snap", "w 0:0:5:5,0:0:6:6,0:0:7:7", "snap", "d 0 6 6", "c lf 0 1", "r 0 0 0 1000 1", "reopen", "r 0 0 0 1000 1"},
+			[]string{"w 0:0:1:1", "snap", "w 0:0:5:5,0:0:6:6", "snap", "w 0:0:9:9", "snap", "d 0 5 5", "c lf 0 2", "r 0 0 0 1000 0", "crash clean", "r 0 0 0 1000 1"},
+			bigBlockCase("full", "reopen"),
+			bigBlockCase("ls", ""),
+		)
+	}
 	if prop == "c02" {
 		cs = append(cs,
 			// F18: a write between a failed snapshot attempt and its retry is lost by a crash after the retry
